@@ -120,7 +120,7 @@ BATTERY = [
 CFG = {
     # max_depth counts the seed transition: 5 = every history of up to 4 operations is expanded ... (5 operations are reached and judged)
     'quick': {
-        'profiles': CUSTOM, 'removable_builtin': False, 'cap': 2, 'max_depth': 5, 'pairs': 'macro-profiles-ascending+P6P5',
+        'profiles': CUSTOM, 'removable_builtin': False, 'cap': 3, 'max_depth': 5, 'pairs': 'macro-profiles-ascending+P6P5',
         'modes': ['copy', 'shared'], 'expand_defaults': [None, 'P2'],
     },
     'thorough': {
